@@ -27,6 +27,7 @@ import (
 	"reflect"
 	"sort"
 	"strings"
+	"sync"
 	"unicode/utf8"
 
 	goahttp "goa.design/goa/v3/http"
@@ -252,11 +253,26 @@ type RespCase struct {
 	Preset BStr   `json:"preset_header"`
 	Value  int    `json:"value"`
 	VName  string `json:"value_go,omitempty"`
+	// Err, when set, makes this an error-path case: goahttp.ErrorEncoder(ResponseEncoder, nil)(ctx, w, err)
+	Err *ErrDesc `json:"error,omitempty"`
+}
+
+// ErrDesc describes the Go error handed to goahttp.ErrorEncoder.
+type ErrDesc struct {
+	Kind      string `json:"kind"` // service | wrapped | plain | unsupported
+	Name      string `json:"name,omitempty"`
+	Msg       string `json:"msg,omitempty"`
+	Timeout   bool   `json:"timeout,omitempty"`
+	Temporary bool   `json:"temporary,omitempty"`
+	Fault     bool   `json:"fault,omitempty"`
 }
 
 type RespObs struct {
+	Via        string `json:"observed_via"` // recorder (frozen snapshot rec.Result()) | server (real net/http round trip)
+	Status     int    `json:"status"`
+	LiveHeader BStr   `json:"live_header_after_the_call,omitempty"` // w.Header() — NOT what the client reads
 	Enc       string `json:"encoder"` // json|xml|gob|text|nil|other:<T>
-	Header    BStr   `json:"header_after"`
+	Header    BStr   `json:"content_type_on_the_wire"`
 	Dec       string `json:"decoder"`
 	EncErr    string `json:"encode_error,omitempty"`
 	Body      BStr   `json:"body"`
@@ -302,7 +318,95 @@ func kindOfType(x any) string {
 	}
 }
 
-func runResp(c RespCase) (o RespObs) {
+// payload is what a response case sends: the Go value, its kind, what the stdlib codecs do
+// with it, the status the documentation promises, and how to compare the decoded value.
+type payload struct {
+	v      any
+	kind   string // struct | string | strptr | bytes
+	facts  codecFacts
+	status int
+	fresh  func() any
+	same   func(out any) bool
+	goErr  error
+}
+
+func factsOf(v any) codecFacts {
+	f := codecFacts{map[string]bool{}, map[string][]byte{}}
+	for _, k := range []string{"json", "xml", "gob", "text"} {
+		b, err := stdEncode(k, v)
+		f.refuses[k] = err != nil
+		if err == nil {
+			f.body[k] = append([]byte{}, b...)
+		}
+	}
+	return f
+}
+
+// documented status table of ErrorResponse.StatusCode
+func specStatus(name string, timeout, temporary, fault bool) int {
+	switch {
+	case name == "unsupported_media_type":
+		return 415
+	case fault:
+		return 500
+	case timeout && temporary:
+		return 504
+	case timeout:
+		return 408
+	case temporary:
+		return 503
+	}
+	return 400
+}
+
+func payloadOf(c RespCase) payload {
+	if c.Err == nil {
+		vd := values[c.Value]
+		return payload{v: vd.v, kind: vd.Kind, facts: facts[c.Value], status: 200,
+			fresh: func() any { return freshOut(vd.Kind) }, same: func(out any) bool { return sameValue(out, vd.v) }}
+	}
+	e := c.Err
+	var goErr error
+	want := goahttp.ErrorResponse{Name: e.Name, ID: "fixed-id", Message: e.Msg, Timeout: e.Timeout, Temporary: e.Temporary, Fault: e.Fault}
+	ignoreID := false
+	switch e.Kind {
+	case "plain":
+		goErr = errors.New(e.Msg)
+		want = goahttp.ErrorResponse{Name: "fault", Message: e.Msg, Fault: true}
+		ignoreID = true
+	case "unsupported":
+		goErr = goa.UnsupportedMediaTypeError(e.Msg)
+		var se *goa.ServiceError
+		errors.As(goErr, &se)
+		want = goahttp.ErrorResponse{Name: "unsupported_media_type", ID: se.ID, Message: "unsupported media type " + e.Msg}
+	default:
+		se := &goa.ServiceError{Name: e.Name, ID: "fixed-id", Message: e.Msg, Timeout: e.Timeout, Temporary: e.Temporary, Fault: e.Fault}
+		goErr = se
+		if e.Kind == "wrapped" {
+			goErr = fmt.Errorf("ctx: %w", se)
+		}
+	}
+	pl := payload{v: &want, kind: "struct", status: specStatus(want.Name, want.Timeout, want.Temporary, want.Fault), goErr: goErr,
+		fresh: func() any { return &goahttp.ErrorResponse{} }}
+	pl.same = func(out any) bool {
+		got := *out.(*goahttp.ErrorResponse)
+		if ignoreID {
+			got.ID = ""
+		}
+		return got == want
+	}
+	if !ignoreID {
+		pl.facts = factsOf(&want)
+	} else {
+		pl.facts = codecFacts{map[string]bool{"text": true}, nil} // body not predictable (random ID); round trip still checked
+	}
+	return pl
+}
+
+// serve runs the goa response sequence on any http.ResponseWriter: the pre-set header, then
+// either what a generated response encoder does (enc := ResponseEncoder(ctx, w);
+// w.WriteHeader(200); enc.Encode(v)) or goahttp.ErrorEncoder(ResponseEncoder, nil)(ctx, w, err).
+func serve(c RespCase, pl payload, w http.ResponseWriter, o *RespObs) {
 	defer func() {
 		if r := recover(); r != nil {
 			o.Panic = fmt.Sprint(r)
@@ -315,38 +419,121 @@ func runResp(c RespCase) (o RespObs) {
 	if c.CT != "" {
 		ctx = context.WithValue(ctx, goahttp.ContentTypeKey, string(c.CT))
 	}
-	rec := httptest.NewRecorder()
 	if c.Preset != "" {
-		rec.Header().Set("Content-Type", string(c.Preset))
+		w.Header().Set("Content-Type", string(c.Preset))
 	}
-	enc := goahttp.ResponseEncoder(ctx, rec)
-	// a nil *T inside the interface is a nil encoder too
-	if enc == nil || (reflect.ValueOf(enc).Kind() == reflect.Ptr && reflect.ValueOf(enc).IsNil()) {
-		o.Enc = "nil"
-	} else {
-		o.Enc = kindOfType(enc)
-	}
-	o.Header = BStr(rec.Header().Get("Content-Type"))
-	vd := values[c.Value]
-	if o.Enc != "nil" {
-		if err := enc.Encode(vd.v); err != nil {
-			o.EncErr = err.Error()
+	note := func(enc goahttp.Encoder) {
+		// a nil *T inside the interface is a nil encoder too
+		if enc == nil || (reflect.ValueOf(enc).Kind() == reflect.Ptr && reflect.ValueOf(enc).IsNil()) {
+			o.Enc = "nil"
+		} else {
+			o.Enc = kindOfType(enc)
 		}
 	}
-	body := append([]byte{}, rec.Body.Bytes()...)
+	if pl.goErr != nil {
+		encoder := func(ctx context.Context, w http.ResponseWriter) goahttp.Encoder {
+			enc := goahttp.ResponseEncoder(ctx, w)
+			note(enc)
+			return enc
+		}
+		if err := goahttp.ErrorEncoder(encoder, nil)(ctx, w, pl.goErr); err != nil {
+			o.EncErr = err.Error()
+		}
+	} else {
+		enc := goahttp.ResponseEncoder(ctx, w)
+		note(enc)
+		w.WriteHeader(http.StatusOK)
+		if o.Enc != "nil" {
+			if err := enc.Encode(pl.v); err != nil {
+				o.EncErr = err.Error()
+			}
+		}
+	}
+	o.LiveHeader = BStr(w.Header().Get("Content-Type"))
+}
+
+// finish reads what the client got (status, Content-Type, body), lets goahttp.ResponseDecoder
+// pick the decoder from that and tries to recover the value.
+func finish(pl payload, resp *http.Response, o *RespObs) {
+	body, _ := io.ReadAll(resp.Body)
+	resp.Body.Close()
+	o.Status = resp.StatusCode
+	o.Header = BStr(resp.Header.Get("Content-Type"))
 	o.Body = BStr(body)
-	resp := &http.Response{StatusCode: 200, Header: rec.Header().Clone(), Body: io.NopCloser(bytes.NewReader(body))}
+	resp.Body = io.NopCloser(bytes.NewReader(body))
 	dec := goahttp.ResponseDecoder(resp)
 	o.Dec = kindOfType(dec)
-	if o.Enc != "nil" && o.EncErr == "" {
-		out := freshOut(vd.Kind)
+	if o.Enc != "nil" && o.EncErr == "" && o.Panic == "" {
+		out := pl.fresh()
 		if err := dec.Decode(out); err != nil {
 			o.DecErr = err.Error()
 		} else {
-			o.Recovered = sameValue(out, vd.v)
+			o.Recovered = pl.same(out)
 		}
 	}
+}
+
+// runResp observes a case through an httptest.ResponseRecorder; everything is read from
+// rec.Result(), the snapshot frozen at the first WriteHeader/Write — never from the live
+// rec.Header().
+func runResp(c RespCase, pl payload) (o RespObs) {
+	o.Via = "recorder"
+	rec := httptest.NewRecorder()
+	serve(c, pl, rec, &o)
+	finish(pl, rec.Result(), &o)
 	return o
+}
+
+// wireServer runs cases through a real net/http server and client.
+type wireServer struct {
+	srv   *httptest.Server
+	mu    sync.Mutex
+	cases map[string]*wireJob
+	n     int
+}
+
+type wireJob struct {
+	c  RespCase
+	pl payload
+	o  *RespObs
+}
+
+func newWireServer() *wireServer {
+	ws := &wireServer{cases: map[string]*wireJob{}}
+	ws.srv = httptest.NewServer(http.HandlerFunc(func(w http.ResponseWriter, r *http.Request) {
+		ws.mu.Lock()
+		j := ws.cases[r.Header.Get("X-Case")]
+		ws.mu.Unlock()
+		if j == nil {
+			http.Error(w, "no such case", 599)
+			return
+		}
+		serve(j.c, j.pl, w, j.o)
+	}))
+	return ws
+}
+
+func (ws *wireServer) run(c RespCase, pl payload) (o RespObs, err error) {
+	o.Via = "server"
+	ws.mu.Lock()
+	ws.n++
+	id := fmt.Sprint(ws.n)
+	ws.cases[id] = &wireJob{c, pl, &o}
+	ws.mu.Unlock()
+	defer func() { ws.mu.Lock(); delete(ws.cases, id); ws.mu.Unlock() }()
+	req, _ := http.NewRequest("GET", ws.srv.URL, nil)
+	req.Header.Set("X-Case", id)
+	resp, err := ws.srv.Client().Do(req)
+	if err != nil {
+		return o, err
+	}
+	finish(pl, resp, &o)
+	return o, nil
+}
+
+// wireSafe: a header value net/http carries unchanged (visible ASCII, no blanks at the ends)
+func wireSafe(s string) bool {
+	return fieldSafe(s) && strings.TrimSpace(s) == s && !strings.Contains(s, "\t")
 }
 
 // classify names the failure class of a response case from its own input and observation
@@ -363,9 +550,9 @@ func classify(c RespCase, o RespObs, law string) string {
 
 // oracleResp evaluates the property's laws on one response case inside the envelope
 // (designed content type absent or parsable). It returns the first law that fails.
-func oracleResp(c RespCase, o RespObs) (law, what string) {
+func oracleResp(c RespCase, pl payload, o RespObs) (law, what string) {
 	accept, ct, preset := string(c.Accept), string(c.CT), string(c.Preset)
-	vd, f := values[c.Value], facts[c.Value]
+	vd, f := struct{ Kind string }{pl.kind}, pl.facts
 	if o.Panic != "" {
 		return "panic", "ResponseEncoder/Encode/Decode panicked: " + o.Panic
 	}
@@ -390,9 +577,12 @@ func oracleResp(c RespCase, o RespObs) (law, what string) {
 		}
 		return "wrong-encoder-for-type", fmt.Sprintf("%s asks for %s, encoder is %s", why, want, o.Enc)
 	}
+	if o.Status != pl.status {
+		return "status-wrong", fmt.Sprintf("status on the wire is %d, expected %d", o.Status, pl.status)
+	}
 	hdr := string(o.Header)
 	if preset == "" && hdr != wantType {
-		return "fresh-header-wrong", fmt.Sprintf("no header pre-set: Content-Type must be %q, is %q", wantType, hdr)
+		return "fresh-header-wrong", fmt.Sprintf("no header pre-set: the Content-Type the client reads must be %q, is %q (w.Header() after the call: %q)", wantType, hdr, string(o.LiveHeader))
 	}
 	if preset != "" && (wantType == "application/json" || wantType == "application/xml") {
 		// the pre-set media type and its parameters must both survive
@@ -423,7 +613,7 @@ func oracleResp(c RespCase, o RespObs) (law, what string) {
 	if o.EncErr != "" {
 		return "encode-error", "Encode failed on a value the codec accepts: " + o.EncErr
 	}
-	if !bytes.Equal([]byte(o.Body), f.body[ann]) {
+	if f.body != nil && !bytes.Equal([]byte(o.Body), f.body[ann]) {
 		return "body-not-in-announced-format", fmt.Sprintf("Content-Type announces %s, body %q is not the %s encoding of the value", ann, string(o.Body), ann)
 	}
 	if !o.Recovered {
@@ -696,6 +886,21 @@ var fixedParamsTriples = [][3]string{
 	{"application/xml", "", "application/json \t;q=1"},
 }
 
+// errorKinds: every flag vector of a ServiceError, the unsupported media type error (415),
+// a wrapped ServiceError and an error that is not a ServiceError
+func errorKinds() []ErrDesc {
+	var out []ErrDesc
+	for fl := 0; fl < 8; fl++ {
+		out = append(out, ErrDesc{Kind: "service", Name: "bad_thing", Msg: "it broke <&>", Timeout: fl&1 != 0, Temporary: fl&2 != 0, Fault: fl&4 != 0})
+	}
+	out = append(out,
+		ErrDesc{Kind: "unsupported", Msg: "application/vnd.api+json"},
+		ErrDesc{Kind: "service", Name: "unsupported_media_type", Msg: "m", Fault: true},
+		ErrDesc{Kind: "wrapped", Name: "not_found", Msg: "no such thing", Temporary: true},
+		ErrDesc{Kind: "plain", Msg: "boom"})
+	return out
+}
+
 var reqCorpus = []string{
 	"", "application/json", "application/xml", "application/gob", "text/html", "text/plain",
 	"application/json; charset=utf-8", "application/xml;charset=UTF-8", "text/plain; charset=utf-8", "Application/JSON", " application/gob ", "TEXT/HTML",
@@ -905,7 +1110,7 @@ func writeShard(dir string, k int, cases []mcase, idxs []int, global *interner) 
 			for i := range c.el {
 				el[i] = sid(c.el[i])
 			}
-			fmt.Fprintf(&lines, "RC %d %d %d %d %d %s %s %d\n", idxs[j], sid(c.a), sid(c.c), sid(c.p), c.code, nums(ol), nums(el), sid(c.hdr))
+			fmt.Fprintf(&lines, "RC %d %d %d %d %d %s %s %d %d %d\n", idxs[j], sid(c.a), sid(c.c), sid(c.p), c.code, nums(ol), nums(el), sid(c.hdr), c.ost, sid(c.oct))
 		case 'Q':
 			ol := make([]int, len(c.ol))
 			for i := 0; i < len(c.ol); i += 2 {
@@ -1027,14 +1232,28 @@ func main() {
 	modelled, skippedDup, skippedCap := 0, 0, 0
 	evals := 0
 
+	ws := newWireServer()
+	defer ws.srv.Close()
+	wireRuns := 0
+	describe := func(c RespCase, o RespObs) string {
+		return fmt.Sprintf(" [accept=%q designed=%q pre-set=%q value=%s -> encoder %s; on the wire (%s): status %d, Content-Type %q; decoder %s]",
+			trunc(string(c.Accept)), trunc(string(c.CT)), trunc(string(c.Preset)), c.VName, o.Enc, o.Via, o.Status, trunc(string(o.Header)), o.Dec)
+	}
 	doResp := func(c RespCase) {
-		c.VName = values[c.Value].Name
-		o := runResp(c)
+		pld := payloadOf(c)
+		if c.Err != nil {
+			c.Value = 0
+			c.VName = fmt.Sprintf("ErrorResponse of %s error %+v", c.Err.Kind, *c.Err)
+		} else {
+			c.VName = values[c.Value].Name
+		}
+		o := runResp(c, pld)
 		evals++
 		res.Count("resp_stream=" + c.Stream)
 		res.Count("resp_encoder=" + o.Enc)
-		res.Count("resp_value=" + values[c.Value].Kind)
+		res.Count("resp_value=" + pld.kind)
 		inEnvelope := c.CT == "" || parsable(string(c.CT))
+		failed := false
 		if c.Stream == "hostile" {
 			// outside the envelope: only crashes count; a nil encoder must mean "does not parse"
 			if o.Panic != "" {
@@ -1043,14 +1262,31 @@ func main() {
 				res.Fail("nil-encoder-for-parsable-type", "ResponseEncoder returned a nil Encoder although the designed content type parses", c)
 			}
 		} else if inEnvelope {
-			if law, what := oracleResp(c, o); law != "" {
+			if law, what := oracleResp(c, pld, o); law != "" {
 				sig := classify(c, o, law)
-				res.Fail(sig, what+fmt.Sprintf(" [accept=%q designed=%q pre-set=%q value=%s -> encoder %s, Content-Type %q, decoder %s]",
-					trunc(string(c.Accept)), trunc(string(c.CT)), trunc(string(c.Preset)), c.VName, o.Enc, trunc(string(o.Header)), o.Dec), c)
+				res.Fail(sig, what+describe(c, o), c)
 				res.Count("resp_failed_law=" + sig)
+				failed = true
+			}
+			// the same case through a real net/http server and client (every error-path case,
+			// the fixed corpora, one in four of the rest), when net/http carries the header unchanged
+			if !failed && c.Stream != "witness" && (c.Err != nil || wireRuns < 2000 || evals%4 == 0) &&
+				wireSafe(string(c.Preset)) && wireSafe(string(o.Header)) {
+				wireRuns++
+				wpl := payloadOf(c)
+				wo, err := ws.run(c, wpl)
+				res.Count("resp_via_real_server")
+				if err != nil {
+					res.Fail("wire-request-failed", "real net/http round trip failed: "+err.Error()+describe(c, o), c)
+				} else if law, what := oracleResp(c, wpl, wo); law != "" {
+					res.Fail(classify(c, wo, law), what+describe(c, wo), c)
+				} else if wo.Header != o.Header || wo.Status != o.Status || wo.Enc != o.Enc {
+					res.Fail("wire-differs-from-recorder", fmt.Sprintf("real server: status %d Content-Type %q encoder %s", wo.Status, string(wo.Header), wo.Enc)+describe(c, o), c)
+				}
 			}
 		}
-		key := fmt.Sprintf("%q|%q|%q|%d", c.Accept, c.CT, c.Preset, c.Value)
+		ej, _ := json.Marshal(c.Err)
+		key := fmt.Sprintf("%q|%q|%q|%d|%s", c.Accept, c.CT, c.Preset, c.Value, ej)
 		if c.Accept != "" || c.CT != "" || c.Preset != "" {
 			distinct.Add("r" + key)
 		}
@@ -1066,8 +1302,8 @@ func main() {
 		if o.Panic != "" {
 			return
 		}
-		f := facts[c.Value]
-		ol, el := pl.oracle([]string{string(c.Accept), string(c.CT), string(c.Preset), string(o.Header)})
+		f := pld.facts
+		ol, el := pl.oracle([]string{string(c.Accept), string(c.CT), string(c.Preset), string(o.Header), string(o.LiveHeader)})
 		enc, dec := 0, kindCode(o.Dec)
 		if o.Enc != "nil" {
 			enc = kindCode(o.Enc) + 1
@@ -1076,12 +1312,16 @@ func main() {
 			res.Fail("unknown-codec-type", fmt.Sprintf("ResponseEncoder/ResponseDecoder returned %s / %s", o.Enc, o.Dec), c)
 			return
 		}
-		code := vkCode(values[c.Value].Kind) + 4*(b2i(f.refuses["json"])+2*(b2i(f.refuses["xml"])+2*(b2i(f.refuses["gob"])+2*(enc+5*(dec+4*(b2i(o.EncErr != "")+2*b2i(o.Recovered)))))))
+		ekind := 0
+		if e := c.Err; e != nil {
+			ekind = 1 + b2i(e.Kind == "unsupported" || e.Name == "unsupported_media_type") + 2*(b2i(e.Timeout)+2*(b2i(e.Temporary)+2*(b2i(e.Fault)+2*b2i(e.Kind == "plain"))))
+		}
+		code := vkCode(pld.kind) + 4*(b2i(f.refuses["json"])+2*(b2i(f.refuses["xml"])+2*(b2i(f.refuses["gob"])+2*(enc+5*(dec+4*(b2i(o.EncErr != "")+2*(b2i(o.Recovered)+2*ekind)))))))
 		mcases = append(mcases, mcase{kind: 'R', a: in.id(string(c.Accept)), c: in.id(string(c.CT)), p: in.id(string(c.Preset)),
-			hdr: in.id(string(o.Header)), code: code, ol: ol, el: el})
+			hdr: in.id(string(o.Header)), code: code, ol: ol, el: el, ost: o.Status, oct: in.id("")})
 		logCase(c, o)
-		if modelled%4001 == 7 {
-			res.Sample(map[string]any{"case": c, "observed": o}, 6)
+		if modelled%4001 == 7 || (c.Err != nil && modelled%701 == 3) {
+			res.Sample(map[string]any{"case": c, "observed": o}, 8)
 		}
 		modelled++
 	}
@@ -1127,7 +1367,37 @@ func main() {
 			}
 		}
 	}
+	// ---- error path: goahttp.ErrorEncoder over Accept x designed type x error kind
+	if *replay == "" {
+		errAccepts := append([]string{"", "application/vnd.api+json", "*/*", "text/html,application/xhtml+xml,application/xml;q=0.9,*/*;q=0.8", "APPLICATION/XML", "application/gob;q=0"}, five...)
+		errCTs := []string{"", "application/vnd.goa.error", "application/vnd.goa.error+json", "application/vnd.goa.error+xml", "application/xml", "application/gob", "application/vnd.x+gob", "text/plain", "application/json; charset=utf-8"}
+		for _, a := range errAccepts {
+			for _, ct := range errCTs {
+				for _, e := range errorKinds() {
+					e := e
+					doResp(RespCase{Stream: "error", Accept: BStr(a), CT: BStr(ct), Err: &e})
+				}
+			}
+		}
+		for _, p := range []string{"application/vnd.x", "application/problem", "application/vnd.x; charset=utf-8"} {
+			for _, a := range []string{"", "application/xml", "application/gob"} {
+				for _, e := range errorKinds() {
+					e := e
+					doResp(RespCase{Stream: "error", Accept: BStr(a), Preset: BStr(p), Err: &e})
+				}
+			}
+		}
+	}
 	for i := 0; i < nResp; i++ {
+		if i%16 == 5 {
+			// random error-path case
+			a, _ := genAccept(rng)
+			ct, _ := genCT(rng)
+			e := vh.Pick(rng, errorKinds())
+			res.Count("error_path_random")
+			doResp(RespCase{Stream: "error", Accept: BStr(a), CT: BStr(ct), Err: &e})
+			continue
+		}
 		stream := "main"
 		if i%8 == 7 {
 			stream = "hostile"
@@ -1310,7 +1580,7 @@ func main() {
 
 	res.Evaluations = evals
 	res.Distinct = len(distinct)
-	res.Rule = "response: Accept grammar (absent, the five exact types, with parameters/q-values, comma lists, wildcards, +json/+xml/+gob suffixed, case/space variants, garbage incl. non-UTF-8, 2-5 KB values) x designed content type via goahttp.ContentTypeKey (absent, five exact, parameters, +json/+xml/+gob/+html/+txt vendor types, unknown; unparsable ones in the hostile stream) x pre-set Content-Type (main stream inside preset_ok: absent, plain, parsable with parameters, agreeing suffix; witness stream: the recorded finding with neighbours; hostile stream: anything) x 12 values (struct, string, *string, []byte); request: Content-Type grammar x 12 values, body in the announced format; RequestEncoder x 7 headers. distinct = distinct (accept, designed, pre-set, value) resp. (header, value) tuples; non-trivial = at least one of the three strings present (resp.) / header present (req.)"
+	res.Rule = "response: Accept grammar (absent, the five exact types, with parameters/q-values, comma lists, wildcards, +json/+xml/+gob suffixed, case/space variants, garbage incl. non-UTF-8, 2-5 KB values) x designed content type via goahttp.ContentTypeKey (absent, five exact, parameters, +json/+xml/+gob/+html/+txt vendor types, unknown; unparsable ones in the hostile stream) x pre-set Content-Type (main stream inside preset_ok: absent, plain, parsable with parameters, agreeing suffix; witness stream: the recorded finding with neighbours; hostile stream: anything) x 12 values (struct, string, *string, []byte), observed on the wire (rec.Result(), plus real net/http round trips); error path: goahttp.ErrorEncoder over Accept x designed type x pre-set x 12 errors (8 ServiceError flag vectors, unsupported media type, wrapped, plain), ErrorResponse decoded back from the wire; request: Content-Type grammar x 12 values, body in the announced format; RequestEncoder x 7 headers. distinct = distinct (accept, designed, pre-set, value) resp. (header, value) tuples; non-trivial = at least one of the three strings present (resp.) / header present (req.)"
 	res.Extra["model_cases_response"] = modelled
 	res.Extra["model_cases_request"] = qn
 	res.Extra["model_cases_request_encoder"] = en
